@@ -5,7 +5,7 @@ from symx.api import *
 PROPERTY = 'C12'
 LEVEL = 'model_checking'
 FILES = ['mesonbuild/mtest.py', 'mesonbuild/build.py']
-ENCODED = ['mtest.TestHarness._run_tests (the real coroutine with its asyncio.Semaphore, futures deque, complete/complete_all, done callbacks, cancel_all_tests)',
+ENCODED = ['TestRunRust.parse (RUST_TEST_RE / RUST_DOCTEST_RE on the regex interpreter)', 'mtest.TestHarness._run_tests (the real coroutine with its asyncio.Semaphore, futures deque, complete/complete_all, done callbacks, cancel_all_tests)',
            'TestHarness.process_test_result/is_bad_result/total_failure_count', 'TestRunExitCode.complete', 'TestRun._complete/complete_skip',
            'TestResult.is_ok/is_bad', 'SingleTestRunner.__init__ (time limit from test timeout x --timeout-multiplier, is_parallel)', 'TestSubprocess.wait / complete_all / TestSubprocess._kill (virtual clock, stub process, os.killpg recorded)', 'TestHarness.doit (job-count clamp, runner creation; rebuild and run_tests stubbed)', 'mtest.test_slice', 'TestHarness.get_tests/test_suitable/test_in_suites/split_suite_string']
 EXPLANATION = ('The real _run_tests coroutine is driven on a manually stepped asyncio event loop: SingleTestRunner.run is a stub awaiting a future that only the harness '
